@@ -123,7 +123,9 @@ pub struct TextSpec {
 fn wide(alphabet: Alphabet, n: u32) -> &'static str {
     match alphabet {
         Alphabet::Ascii => "plain",
-        Alphabet::Bmp => ["é", "日本", "ß→λ"][n as usize % 3],
+        // also characters that Unicode calls line or paragraph separators but the protocol
+        // does not: only LF, CR LF and CR end a line there (NEL, LS, PS, VT, FF do not)
+        Alphabet::Bmp => ["é", "日本", "ß→λ", "a\u{2028}b", "n\u{85}l", "v\u{0B}f\u{0C}p\u{2029}"][n as usize % 6],
         Alphabet::Astral => ["😀", "𝒳é", "日😀"][n as usize % 3],
     }
 }
